@@ -24,6 +24,7 @@ int vs_finish(void);          /* stop controlling; returns 0 ok */
 void vs_name(const void *addr, size_t size, const char *fmt, ...);
 void vs_name_ex(const void *addr, size_t size, int flags, const char *fmt, ...);
 void vs_unname(const void *addr);
+void vs_unname_named(const void *addr, const char *name); /* drop the entry <addr, name> only (the address may carry a newer name) */
 void vs_set_snap_fn(const void *addr, void (*fn)(const void *obj, const char *name)); /* called at every clear/store/RMW on the named object (before the op executes, nobody else running): typically walks a lock-protected structure and vs_note()s it */
 void vs_log(const char *fmt, ...);  /* scenario-level event line "S <tid> <unit> text" ; also a schedule point */
 void vs_note(const char *fmt, ...); /* like vs_log but not a schedule point */
